@@ -486,6 +486,11 @@ func GetViaBrSig(viab []byte) (StrSigId, int) {
 	if offs == -1 {
 		return 0, 0 // no params
 	}
+	if c := bytes.IndexByte(viab, ','); c != -1 && c < offs {
+		// the first via of a comma separated list has no params, the
+		// ';' found belongs to a later via
+		return 0, 0
+	}
 	offs++ // skip over ';'
 parse_params:
 	for {
